@@ -11,5 +11,11 @@ TEXTS = {
         level_text="Generated-schedule search over the exported controlcommands API: ~2000 (quick) / 40000 (thorough) generated command sets with abnormal peers (send failure, silence, duplicates, late, unknown/foreign ids and senders), in production shape (one queue) and stress shape (several queues on one servent). The oracle is exact on attribution (own token or error per target, exactly one completion). Exploration level: arrival orders are drawn, goroutine scheduling inside the queue is not owned.",
         level_note="Trusts real-time sleeps for arrival order (margins >= 100 ms, every verdict confirmed by a second execution); replies are delivered in their own goroutine exactly as core/task/scheduler.go does.",
     ),
+    "C19": dict(
+        engine="inprocess-rapid",
+        technique="property-based testing (rapid): generated concurrent producer bursts and scripted broker latencies/holds against the real KafkaWriter (write function injected through overlay hook H1); history invariant over the batches handed to the broker (permutation, per-producer order, batch bound, keys, flush at Close)",
+        level_text="Generated-schedule search: hundreds (quick) to ~10000 (thorough, plus a -race pass) generated producer/broker/shutdown scripts are executed against the real writer and FIFO; the oracle decodes every message handed to the broker and checks exactly-once, order, batch bound, partition keys, non-blocking producers and flush-on-Close. Exploration level because goroutine interleavings inside the writer are sampled, not enumerated.",
+        level_note="Trusts: hook H1 constructs the writer like NewWriterWithTopic (same struct literal, both loops); the Kafka client itself is outside the check.",
+    ),
 }
 NA_REASONS = {}
